@@ -32,6 +32,11 @@ EXPLANATION = (
     "increment follow the sign of the step; R-tr-modname -- definition and instantiation use the same module name rule, per "
     "element of a component array, and constructor defaults are aligned correctly in the parameter list that forms the name; "
     "R-tr-constcache -- constants memoised by AST node live only as long as the block/closure they were resolved for; "
+    "R-tr-index-queue -- while array indices are pending in the visitor's shared index queue no other sub-expression is translated; "
+    "R-tr-dedup-scope -- the container used to skip an already emitted module definition is created by the same translate() call; "
+    "R-tr-loop-state -- per-iteration locals of the generator loops are defined in the same iteration on every path before use; "
+    "R-tr-memo-scope -- no class- / module-level container is written by translator code unless keyed by the described object; "
+    "R-tr-ident-intact -- identifiers in templates may be padded but never truncated (format precision, constant-length prefix); "
     "R-layout-agree -- struct literals / concat / struct construction put the first field (argument) most significant and "
     "packed-array element 0 least significant. "
     "NOT decided: cycle-for-cycle behavioural equivalence of arbitrary designs, syntactic validity of arbitrary emitted text "
@@ -47,9 +52,11 @@ ASSUMPTIONS = [
 
 RULES = [partial(f, backend=BACKEND) for f in (
     T.rule_hooks, T.rule_handlers, T.rule_optable, T.rule_assign, T.rule_slice, T.rule_width_cast, T.rule_conn,
-    T.rule_sigexpr, T.rule_for, T.rule_modname, T.rule_constcache, T.rule_layout)]
+    T.rule_sigexpr, T.rule_for, T.rule_modname, T.rule_constcache, T.rule_layout, T.rule_index_queue, T.rule_dedup_scope,
+    T.rule_loop_state, T.rule_memo_scope, T.rule_ident_intact)]
 for _f, _g in zip(RULES, (T.rule_hooks, T.rule_handlers, T.rule_optable, T.rule_assign, T.rule_slice, T.rule_width_cast,
-                          T.rule_conn, T.rule_sigexpr, T.rule_for, T.rule_modname, T.rule_constcache, T.rule_layout)):
+                          T.rule_conn, T.rule_sigexpr, T.rule_for, T.rule_modname, T.rule_constcache, T.rule_layout,
+                          T.rule_index_queue, T.rule_dedup_scope, T.rule_loop_state, T.rule_memo_scope, T.rule_ident_intact)):
     _f.__name__ = _g.__name__
 
 
@@ -62,6 +69,23 @@ def rule_typecheck_bounds(repo):
 
 
 RULES.append(rule_typecheck_bounds)
+
+
+def rule_param_record(repo):
+    """two instances share one emitted module iff their names are equal; the name is built from the recorded construct
+    arguments, so the record must hold what construct() was really called with (set_param included).  Shared with C13
+    (R-C13-name)."""
+    from rules.c13 import rule_name
+    res = rule_name(repo)
+    # only the argument-record clause (Component._construct / _gen_parameters) is needed here; the character set of names
+    # (C13's known finding D8) concerns syntactic validity, which C03 does not decide
+    keep = lambda fn: '_construct' in fn or '_gen_parameters' in fn
+    res.findings = [f for f in res.findings if keep(f.func)]
+    res.instances = [i for i in res.instances if i['verdict'] != 'VIOLATED' or keep(i['function'])]
+    return res
+
+
+RULES.append(rule_param_record)
 
 # ---------------------------------------------------------------------------
 # self-test of the checker
@@ -214,6 +238,34 @@ MUTANTS = [
     _m('subcomp-explicit-name-ignored', VS4, "        elif subcomp_explicit_name:\n", "        elif False and subcomp_explicit_name:\n", 'R-tr-modname'),
     _m('defaults-wrong-offset', T.RTYPE, "defaults[idx-len(arg_names)]", "defaults[idx-num_defaults]", 'R-tr-modname'),
     _m('defaults-offset-by-supplied', T.RTYPE, "defaults[idx-len(arg_names)]", "defaults[idx-num_supplied]", 'R-tr-modname'),
+    # R-tr-index-queue
+    _m('index-base-visited-before-index', VB1, "    idx   = s.visit( node.idx )\n    value = s.visit( node.value )\n    Type = node.value.Type",
+       "    value = s.visit( node.value )\n    idx   = s.visit( node.idx )\n    Type  = node.value.Type", 'R-tr-index-queue'),
+    _m('ifc-array-index-visited-after-base', T.SV_B[4], "      idx = s.visit( node.idx )\n      s._unpacked_q.appendleft(idx)\n      value = s.visit( node.value )\n      return value",
+       "      value = s.visit( node.value )\n      idx = s.visit( node.idx )\n      s._unpacked_q.appendleft(idx)\n      return value", 'R-tr-index-queue'),
+    # R-tr-dedup-scope
+    dict(name='dedup-set-survives-translate', rule='R-tr-dedup-scope', edits=[
+        dict(file=T.G_RTLIR_TR, old="        if name not in components:\n", new="        if name not in s._generated_modules:\n          s._generated_modules.add( name )\n", count=1),
+        dict(file=T.G_RTLIR_TR, old="      s.clear( tr_top, tr_cfgs )\n", new="      s.clear( tr_top, tr_cfgs )\n      if not hasattr( s, '_generated_modules' ):\n        s._generated_modules = set()\n", count=1)]),
+    dict(name='dedup-set-created-in-constructor', rule='R-tr-dedup-scope', edits=[
+        dict(file=T.G_RTLIR_TR, old="        if name not in components:\n", new="        if name not in s.component_names_done:\n          s.component_names_done.add( name )\n", count=1),
+        dict(file=T.GENERIC + 'BaseRTLIRTranslator.py', old="    s.top = top\n", new="    s.top = top\n    s.component_names_done = set()\n", count=1)]),
+    # R-tr-loop-state / R-tr-memo-scope / R-tr-ident-intact
+    _m('subcomp-array-type-leaks-to-next-subcomp', T.G_S4, "      else:\n        c_array_rtype = None\n        c_rtype = _c_rtype\n",
+       "      else:\n        c_rtype = _c_rtype\n", 'R-tr-loop-state'),
+    _m('port-array-type-leaks-to-next-port', T.G_S1, "      else:\n        array_type = None\n        port_rtype = rtype\n",
+       "      else:\n        port_rtype = rtype\n", 'R-tr-loop-state'),
+    _m('nested-ifc-array-type-leaks', VS3, "        else:\n          array_type = None\n          rtype = _rtype\n", "        else:\n          rtype = _rtype\n",
+       'R-tr-loop-state'),
+    dict(name='vector-dtype-memo-by-width-name', rule='R-tr-memo-scope', edits=[
+        dict(file=VS1, old="  def rtlir_tr_vector_dtype( s, dtype ):\n    msb = dtype.get_length() - 1\n",
+             new="  _vec_memo = {}\n\n  def rtlir_tr_vector_dtype( s, dtype ):\n    if str(dtype) in s._vec_memo:\n      return s._vec_memo[ str(dtype) ]\n    msb = dtype.get_length() - 1\n    s._vec_memo[ str(dtype) ] = None\n", count=1)]),
+    dict(name='struct-def-memo-at-module-level', rule='R-tr-memo-scope', edits=[
+        dict(file=VS2, old="from .VStructuralTranslatorL1 import VStructuralTranslatorL1\n", new="from .VStructuralTranslatorL1 import VStructuralTranslatorL1\n\n_seen_structs = set()\n", count=1),
+        dict(file=VS2, old="  def rtlir_tr_struct_dtype( s, dtype ):\n    dtype_name = dtype.get_name()\n",
+             new="  def rtlir_tr_struct_dtype( s, dtype ):\n    dtype_name = dtype.get_name()\n    _seen_structs.add( dtype_name )\n", count=1)]),
+    _m('port-wire-name-truncated', VS4, "          port_wire = f\"{orig_c_id}__{dscp['id']}{unpacked_str}\"", "          port_wire = f\"{orig_c_id}__{dscp['id']:.24}{unpacked_str}\"",
+       'R-tr-ident-intact'),
     # R-tr-constcache
     dict(name='const-cache-at-class-level', rule='R-tr-constcache', edits=[
         dict(file=GEN1, old="class ConstantExtractor( ast.NodeVisitor ):\n  def __init__",
@@ -233,6 +285,11 @@ MUTANTS = [
 ]
 
 EQUIV = [
+    _m('array-type-reset-before-branch', T.G_S1, "      if isinstance( rtype, rt.Array ):\n        array_type = rtype\n        port_rtype = rtype.get_sub_type()\n      else:\n        array_type = None\n        port_rtype = rtype\n",
+       "      array_type, port_rtype = None, rtype\n      if isinstance( rtype, rt.Array ):\n        array_type = rtype\n        port_rtype = rtype.get_sub_type()\n"),
+    _m('components-dict-by-constructor-call', T.G_RTLIR_TR, "      s.hierarchy.components = {}\n", "      s.hierarchy.components = dict()\n"),
+    _m('index-type-read-between-visits', VB1, "    idx   = s.visit( node.idx )\n    value = s.visit( node.value )\n    Type = node.value.Type",
+       "    idx   = s.visit( node.idx )\n    Type = node.value.Type\n    value = s.visit( node.value )"),
     _m('tmpvar-chain-test-restated', GEN2, "    if has_tmpvar:\n      return True\n    else:\n      return super().get_blocking(node, bir_node)",
        "    if all_tmpvar and has_tmpvar:\n      return True\n    return super().get_blocking(node, bir_node)"),
     _m('module-name-fast-path-same-object', VS4, "        obj_c_rtype = s.tr_top.get_metadata(RTLIRPass.rtlir_getter).get_rtlir(obj)\n",
